@@ -401,19 +401,26 @@ class ScriptedContext:
 
 @contextlib.contextmanager
 def patched_spnego_client(factory: t.Callable[..., ScriptedContext]):
-    """spnego.client(...) -> factory(username, password, hostname=, protocol=, ...)"""
-    orig = spnego.client
+    """Every *initiating* pyspnego context becomes factory(username, password, hostname=, protocol=, ...).  Patched where
+    spnego.client() itself looks its worker up (spnego.auth._new_context, resolved at call time), so a client that bound
+    `spnego.client` by name at import time is covered too; accepting contexts (the reference DC's) are left alone."""
+    import spnego.auth
+
+    orig = spnego.auth._new_context
     calls: t.List[dict] = []
 
-    def client(*a, **k):
-        calls.append({"args": a, "kwargs": k})
-        return factory(*a, **k)
+    def _new_context(username, password, hostname, service, channel_bindings, context_req, protocol, options, usage, **kwargs):
+        if usage != "initiate":
+            return orig(username, password, hostname, service, channel_bindings, context_req, protocol, options, usage, **kwargs)
+        k = dict(hostname=hostname, service=service, channel_bindings=channel_bindings, context_req=context_req, protocol=protocol, options=options, **kwargs)
+        calls.append({"args": (username, password), "kwargs": k})
+        return factory(username, password, **k)
 
-    spnego.client = client
+    spnego.auth._new_context = _new_context
     try:
         yield calls
     finally:
-        spnego.client = orig
+        spnego.auth._new_context = orig
 
 
 class Bridge:
